@@ -38,9 +38,10 @@ CLAIMED = {
                 text="Addition, subtraction, difference, increments and all relational operators are compared with unit-index arithmetic "
                      "in 128-bit, and the inverse laws are checked on the library's own results, for every alignment, including the "
                      "int64 extremes.", note="trusts O-CAL", ref="3/C05"),
-    "C17": dict(cat="exploration", tech="reference-model monitor, exhaustive over the 146097-day cycle x 7 weekdays at 13 cycle offsets",
+    "C17": dict(cat="exploration", tech="reference-model monitor, exhaustive over the 146097-day cycle x 7 weekdays at 13 cycle offsets, plus a sweep of every year of the 32-bit range",
                 text="weekday/yearday/next/prev_weekday compared with day-count arithmetic for every day of the Gregorian cycle, "
-                     "replicated across the int64 year range.", note="trusts O-CAL", ref="3/C17"),
+                     "replicated across the int64 year range; every year in [-2^30, 2^30) (thorough: [-2^32, 2^32)) is asked six questions "
+                     "around the end of February and of the year against an oracle advanced year by year.", note="trusts O-CAL", ref="3/C17"),
     "C12": dict(cat="exploration", tech="sanitizers (ASan+UBSan fatal, asserts live) + per-case watchdog + determinism differential across pre-fill builds; memcheck and libFuzzer in the thorough tier",
                 text="Tens of thousands (thorough: millions) of structure-aware hostile inputs are loaded through the documented data-source "
                      "extension point in an ASan/UBSan build under a supervisor that attributes every report, abort and hang to its input; the "
@@ -54,7 +55,8 @@ CLAIMED = {
     "C16": dict(cat="exploration", tech="differential monitor against an independent recursive-descent parser + pre-fill determinism + end-to-end footer loads",
                 text="Millions of grammar sentences, boundary values, single-edit mutants and random strings are parsed by the library and by "
                      "O-POSIX; acceptance must agree both ways and every meaningful field must match and be independent of how the result "
-                     "struct was pre-filled.", note="NUL-containing strings are outside the domain", ref="3/C16"),
+                     "struct was pre-filled; after a rejected string the previously accepted one is parsed again (what a rejection leaves "
+                     "behind must not show).", note="NUL-containing strings are outside the domain", ref="3/C16"),
     "C07": dict(cat="exploration", tech="round-trip relation monitor (format then parse), ASan+UBSan build",
                 text="Millions of (zone, instant, femtoseconds, lossless format, parse zone) cases from a generated family of lossless "
                      "formats; the oracle is equality, so no model can be wrong.", note="lossless family as documented in DESIGN.md 3/C07", ref="3/C07"),
@@ -83,7 +85,8 @@ CLAIMED = {
                 text="Every table index reachable by one preceding query is set in both directions and probed with a 24-query panel, "
                      "answers compared with a second copy of the same bytes under another cache key; the hint hook proves which states "
                      "and hint hits were exercised; long random histories are compared with independently driven and freshly loaded "
-                     "copies; the cache is observed through a counting zone-data source; in-process histories that change TZDIR/TZ/LOCALTIME "
+                     "copies; the cache is observed through a counting zone-data source, also in a long-lived process with thousands of failed and "
+                     "loaded names revisited after the data behind them changed; in-process histories that change TZDIR/TZ/LOCALTIME "
                      "between first-time loads are predicted from the environment of that moment plus the name cache.",
                 note="hidden state assumed to be the two hint indices + the name cache (what the anchors name)", ref="3/C14"),
     "C19": dict(cat="exploration", tech="environment-matrix monitor: child processes per environment vs a Python model of the resolution rules; strace fault injection in the thorough tier",
